@@ -126,6 +126,7 @@ Glu_alloc(
 	*prev_next = Glu->map_in_sup[fsupc];
 	Glu->map_in_sup[fsupc] += num;
 	SLU_MT_VERIF_EVENT(9, pnum, jcol, num, *prev_next);
+	SLU_MT_VERIF_EVENT(20, pnum, fsupc, num, *prev_next);
 
 #if 0
 	{
@@ -281,6 +282,7 @@ DynamicSetMap(
     {
 	nextlu = Glu->nextlu;
 	map_in_sup[jcol] = nextlu;
+	SLU_MT_VERIF_EVENT(19, pnum, jcol, num, nextlu);
 	new_next = nextlu + num;
 	if ( new_next > Glu->nzlumax ) {
 	    XPAND_HINT("L supernodes", new_next, jcol, 6);
